@@ -30,7 +30,7 @@ func zzClient(st *StateMachine, retrans int, watchdog bool) *Client {
 }
 
 // zzCountCERs parses everything the client wrote and returns the CERs (checking each one's content).
-func zzCheckCER(b []byte) *diam.Message {
+func zzCheckCER(b []byte, wantAddrs [][4]byte) *diam.Message {
 	m, err := diam.ReadMessage(&zzReader{b: b}, dict.Default)
 	vAssert(err == nil && m != nil, "what the client sends is a well-formed message")
 	if err != nil {
@@ -41,7 +41,13 @@ func zzCheckCER(b []byte) *diam.Message {
 	or, e2 := m.FindAVP(avp.OriginRealm, 0)
 	vAssert(e1 == nil && e2 == nil && oh.Data.(datatype.DiameterIdentity) == "srv.example" && or.Data.(datatype.DiameterIdentity) == "example", "CER carries the configured identity")
 	addrs, e3 := m.FindAVPs(avp.HostIPAddress, 0)
-	vAssert(e3 == nil && len(addrs) == 2, "CER carries the configured host addresses")
+	vAssert(e3 == nil && len(addrs) == len(wantAddrs), "CER carries the configured host addresses, or the connection's own local address when none is configured")
+	if e3 == nil && len(addrs) == len(wantAddrs) {
+		for i, w := range wantAddrs {
+			ab := addrs[i].Data.Serialize()
+			vAssert(len(ab) == 6 && ab[1] == 1 && ab[2] == w[0] && ab[3] == w[1] && ab[4] == w[2] && ab[5] == w[3], "CER host address: the configured ones, or this connection's local endpoint")
+		}
+	}
 	auth, e4 := m.FindAVPs(avp.AuthApplicationID, 0)
 	acct, e5 := m.FindAVPs(avp.AcctApplicationID, 0)
 	vs, e6 := m.FindAVPs(avp.VendorSpecificApplicationID, 0)
@@ -101,7 +107,13 @@ func zzPeerCEA(cer *diam.Message, tag string, kinds int) (b []byte, acceptable b
 // timer, or disconnects; after a success up to X further CEAs (duplicate success / late failure) and
 // one application answer.
 func zzC12_handshake() {
-	st := New(zzSettings(true))
+	// host addresses configured in the settings, or none (the CER then carries the local endpoint's)
+	configured := vParam("NOADDR", 0) == 0 || !zzFlag("noConfiguredAddresses")
+	st := New(zzSettings(configured))
+	wantAddrs := [][4]byte{{192, 0, 2, 1}, {192, 0, 2, 2}}
+	if !configured {
+		wantAddrs = [][4]byte{{192, 0, 2, 10}}
+	}
 	var answers []uint32
 	st.HandleFunc("CCA", func(c diam.Conn, m *diam.Message) { answers = append(answers, m.Header.HopByHopID) })
 	retrans := vLen("retransmits", 0, vParam("R", 1))
@@ -129,10 +141,21 @@ func zzC12_handshake() {
 	for step := 0; step < retrans+2 && !done; step++ {
 		// the CERs sent so far
 		for ; seen < len(t.written); seen++ {
-			zzCheckCER(t.written[seen])
+			zzCheckCER(t.written[seen], wantAddrs)
 		}
 		vAssert(len(t.written) >= 1, "a CER has been sent")
-		switch vChoice("peer", 3) {
+		switch vChoice("peer", vParam("PEERKINDS", 3)) {
+		case 3: // the peer sends a CER of its own and an application answer before answering the client's CER
+			pc, pe := zzCER(4, 0, true).Serialize()
+			early := diam.NewMessage(diam.CreditControl, 0, 4, 55, 56, dict.Default)
+			early.NewAVP(avp.SessionID, avp.Mbit, 0, datatype.UTF8String("s;0"))
+			eb, ee := early.Serialize()
+			vAssume(pe == nil && ee == nil)
+			t.in <- pc
+			t.in <- eb
+			vQuiesce()
+			vAssert(len(answers) == 0, "C10 (client side): no application handler runs before the client's own CER/CEA exchange has succeeded")
+			vAssert(!done, "a CER from the peer does not settle the client's handshake")
 		case 0: // answer
 			cer, err := diam.ReadMessage(&zzReader{b: t.written[len(t.written)-1]}, dict.Default)
 			vAssume(err == nil)
@@ -198,6 +221,7 @@ func zzC12_handshake() {
 		// the same Client dials a second peer while the first connection is open; an extra CEA on the
 		// first connection must not be taken for the second handshake's answer
 		t2 := zzNewTransport("198.51.100.8:3868")
+		t2.local = "192.0.2.20:3868" // the second connection leaves from another local address
 		var conn2 diam.Conn
 		var herr2 error
 		done2 := false
@@ -207,6 +231,11 @@ func zzC12_handshake() {
 		}()
 		vQuiesce()
 		vAssume(len(t2.written) >= 1 && !done2)
+		if configured {
+			zzCheckCER(t2.written[0], wantAddrs)
+		} else {
+			zzCheckCER(t2.written[0], [][4]byte{{192, 0, 2, 20}})
+		}
 		// (duplicate success or late failure: symbolic result code, application 4)
 		crossCEA := cer.Answer(vU32("cross.rc"))
 		crossCEA.NewAVP(avp.OriginHost, avp.Mbit, 0, datatype.DiameterIdentity("peer.example"))
@@ -239,4 +268,50 @@ func zzC12_handshake() {
 	vAssert(len(answers) == 1 && answers[0] == 77, "answers are dispatched to the application's handlers after the handshake")
 	vAssert(!t.isClosed, "and the connection is still open")
 	vReach("C12_handshake_ok")
+}
+
+// zzC12_addrs: one Client, no host address configured, two dials leaving from different local
+// addresses: every CER carries the local endpoint of its own connection.
+func zzC12_addrs() {
+	st := New(zzSettings(false))
+	cli := zzClient(st, 0, false)
+	locals := [2]string{"192.0.2.10:3868", "192.0.2.20:3868"}
+	want := [2][4]byte{{192, 0, 2, 10}, {192, 0, 2, 20}}
+	first := vChoice("firstLocal", 2)
+	for k := 0; k < 2; k++ {
+		li := (first + k) % 2
+		t := zzNewTransport("198.51.100.7:3868")
+		t.local = locals[li]
+		var conn diam.Conn
+		var herr error
+		done := false
+		go func() {
+			conn, herr = cli.NewConn(t, "zz")
+			done = true
+		}()
+		vQuiesce()
+		vAssert(len(t.written) == 1 && !done, "the dial sends its CER and waits")
+		if len(t.written) != 1 {
+			return
+		}
+		cer := zzCheckCER(t.written[0], [][4]byte{want[li]})
+		if cer == nil {
+			return
+		}
+		// the first dial ends in success or in a failure answer (case split); the second in success
+		rc := uint32(diam.Success)
+		if k == 0 && zzFlag("firstDialRejected") {
+			rc = 5012
+		}
+		a := cer.Answer(rc)
+		a.NewAVP(avp.OriginHost, avp.Mbit, 0, datatype.DiameterIdentity("peer.example"))
+		a.NewAVP(avp.OriginRealm, avp.Mbit, 0, datatype.DiameterIdentity("peers"))
+		a.NewAVP(avp.AuthApplicationID, avp.Mbit, 0, datatype.Unsigned32(4))
+		b, berr := a.Serialize()
+		vAssume(berr == nil)
+		t.in <- b
+		vQuiesce()
+		vAssert(done && (conn != nil && herr == nil) == (rc == diam.Success), "the dial is settled by the CEA")
+	}
+	vReach("C12_addrs")
 }
